@@ -184,6 +184,7 @@ REG.spec('utils/misc.py:convert_slots_to_new',
 NodeL = T.List(NodeD)
 REG.define_sum('lfs_on', 's', ['ni'], 'ite(s.node_index == ni, s.lfs, 0)', T.Int)
 REG.define_sum('mem_on', 's', ['ni'], 'ite(s.node_index == ni, s.mem, 0)', T.Int)
+REG.define_sum('cnt_on', 's', ['ni'], 'ite(s.node_index == ni, 1, 0)', T.Int)      # ranks on node ni
 
 # the node list keeps its skeleton (indices, names, sizes)
 REG.define('same_skeleton(a, b)',
@@ -407,6 +408,9 @@ REG.spec('agent/scheduler/continuous.py:Continuous.schedule_task',
       ('mem-per-node-within-what-the-node-has',
        'implies(result[0] is not None, forall(lambda n: implies(0 <= n < len(self.nodes), '
        'sumf("mem_on", val(result[0]), None, self.nodes[n].index) <= self.nodes[n].mem)))'),
+      ('a-ranks-per-node-limit-is-never-exceeded',
+       'implies(result[0] is not None and bool(task.description.ranks_per_node), forall(lambda n: implies(0 <= n < len(self.nodes), '
+       'sumf("cnt_on", val(result[0]), None, self.nodes[n].index) <= val(task.description.ranks_per_node))))'),
       ('colocated-only-on-nodes-used-for-the-tag',
        'implies(result[0] is not None and task.description.partition is None and '
        'task.description.tags.colocate is not None and indom(old(self._colo_history), val(task.description.tags.colocate)), '
@@ -432,12 +436,41 @@ REG.spec('agent/scheduler/continuous.py:Continuous.schedule_task',
             'sumf("mem_on", alc_slots, None, self.nodes[n].index) <= self.nodes[n].mem))',
             'implies(partition_id is None, self._colo_history == old(self._colo_history))',
             'implies(partition_id is None, colo_tag == td.tags.colocate)',
+            # ranks per node: the per-node search size never exceeds the limit, and a node is searched once
+            'ranks_per_node == td.ranks_per_node', 'implies(bool(ranks_per_node), slots_per_node <= val(ranks_per_node))',
+            'implies(bool(ranks_per_node), forall(lambda n: implies(0 <= n < len(self.nodes), '
+            'sumf("cnt_on", alc_slots, None, self.nodes[n].index) <= val(ranks_per_node))))',
             ],
     },
     concat_lemmas = [('sum.lfs_on.extend-one-node', dict(y='node.index')),
-                     ('sum.mem_on.extend-one-node', dict(y='node.index'))],
+                     ('sum.mem_on.extend-one-node', dict(y='node.index')),
+                     ('sum.cnt_on.extend-one-node', dict(y='node.index'))],
     opts   = dict(merge='scalars'),
     serves = ['C01', 'C02'])
+
+# the same lemma family for the number of ranks on a node
+REG.lemma('sum.cnt_on.none-on-node', induct='n',
+    vars  = dict(xs=SlotL, ni=T.Int),
+    hyps  = ['n <= len(xs)', 'forall(lambda k: implies(0 <= k < n, xs[k].node_index != ni))'],
+    goals = ['sumf("cnt_on", xs, n, ni) == 0'],
+    patterns = ['sumf("cnt_on", xs, n, ni)'],
+    serves = ['C02'])
+REG.lemma('sum.cnt_on.prefix', induct='n',
+    vars  = dict(out=SlotL, a=SlotL, ni=T.Int),
+    hyps  = ['forall(lambda i: implies(0 <= i < n, out[i] == a[i]))'],
+    goals = ['sumf("cnt_on", out, n, ni) == sumf("cnt_on", a, n, ni)'],
+    serves = ['C02'])
+REG.lemma('sum.cnt_on.extend-one-node', induct='n',
+    vars  = dict(out=SlotL, a=SlotL, b=SlotL, la=T.Int, y=T.Int, ni=T.Int),
+    hyps  = ['0 <= la', 'forall(lambda i: implies(0 <= i < la, out[i] == a[i]))',
+             'forall(lambda i: implies(la <= i < la + n, out[i] == b[i - la]))',
+             'forall(lambda k: implies(0 <= k < n, b[k].node_index == y))',
+             'forall(lambda k: implies(0 <= k < la, a[k].node_index != y))'],
+    goals = ['sumf("cnt_on", out, la + n, y) == n',
+             'implies(ni != y, sumf("cnt_on", out, la + n, ni) == sumf("cnt_on", a, la, ni))'],
+    uses  = ['sum.cnt_on.prefix', 'sum.cnt_on.none-on-node'],
+    patterns = ['sumf("cnt_on", out, la + n, ni)'],
+    serves = ['C02'])
 
 
 # ------------------------------------------------------------------------------
